@@ -5,9 +5,7 @@ V = '/verif'
 import sys; sys.path.insert(0, V + '/tools')
 from claims import CLAIMS as claimed
 not_builtnot_built = {}
-reasons_na = {
- 'C05': "liveness of a randomised distributed protocol over fault histories: no clause beyond C01/C02 (claimed separately) is visible in the shape of the code; static analysis cannot bound schedules or elapsed time",
-}
+reasons_na = {}
 props = [json.loads(l) for l in open(f'{V}/properties.jsonl')]
 checks, na = [], []
 for p in props:
